@@ -6,6 +6,7 @@
   replace, replace-around and markup partners (Props/C17.lean `commute_succeeds_around_*`).
 -/
 import Proofs.CommuteAroundSuccess
+import Proofs.CommuteMarkup
 namespace PM
 
 /-- the partner spliced `[f1, t1)`, `t1 < from`: the replace-around step shifted by the size change applies
@@ -117,5 +118,99 @@ theorem around_as_replace (S : Schema) (d db : Node) (f t gf gt ins : Nat) (sl :
     simp only [List.length_append, List.length_take, List.length_drop, hgaplen] at h1
     omega
   exact ⟨gap, inserted, hgap, ho1, ho2, hinst, hb2, hio1, hin, hisz, hl⟩
+
+/-! ### node-markup steps as replace steps -/
+
+/-- `node_at` finds the non-text node whose first token sits at `pos` -/
+theorem nodeAtKids_of_head (kids : List Node) (pos : Nat) (x : Tok) (hn : fnormKids kids = true)
+    (h : (ftoks kids)[pos]? = some x) (hx1 : x ≠ Tok.cl) (hx2 : ∀ u m, x ≠ Tok.unit u m) :
+    ∃ n, nodeAtKids kids pos = .ok (some n) ∧ n.headTok = x ∧ n.isText = false := by
+  fun_induction nodeAtKids kids pos
+  case case1 => simp at h
+  case case2 => simp at h
+  case case3 n ns =>
+    refine ⟨n, rfl, ?_⟩
+    simp only [fnormKids_cons, Bool.and_eq_true] at hn
+    cases n with
+    | text s m =>
+      exfalso
+      cases s with
+      | nil => simp at hn
+      | cons c cs => simp at h; exact hx2 c m h.symm
+    | leaf t a m => simp at h; subst h; exact ⟨rfl, rfl⟩
+    | elem t a m k => simp at h; subst h; exact ⟨rfl, rfl⟩
+  case case4 n ns pos h0 h1 ih =>
+    simp only [fnormKids_cons, Bool.and_eq_true] at hn
+    apply ih hn.2
+    rw [ftoks_cons, List.getElem?_append_right (by rw [Node.toks_length]; exact h1), Node.toks_length] at h
+    exact h
+  case case5 ns pos h0 ty ats mk k h1 ih =>
+    simp only [fnormKids_cons, Bool.and_eq_true, Node.norm_elem] at hn
+    simp only [Node.size_elem, Nat.not_le] at h1
+    apply ih (fnormKids_of_fnorm hn.1)
+    rw [ftoks_cons, Node.toks_elem] at h
+    obtain ⟨p, rfl⟩ : ∃ p, pos = p + 1 := ⟨pos - 1, by omega⟩
+    simp only [List.cons_append, List.getElem?_cons_succ, Nat.add_sub_cancel] at h ⊢
+    have hlen := ftoks_length k
+    by_cases hp : p < (ftoks k).length
+    · rw [List.append_assoc, List.getElem?_append_left hp] at h; exact h
+    · exfalso
+      have : p = (ftoks k).length := by omega
+      subst this
+      rw [List.append_assoc, List.getElem?_append_right (Nat.le_refl _)] at h
+      simp at h
+      exact hx1 h.symm
+  case case6 n ns pos h0 h1 hne =>
+    exfalso
+    simp only [fnormKids_cons, Bool.and_eq_true] at hn
+    cases n with
+    | text s m =>
+      simp only [Node.size, Nat.not_le] at h1
+      rw [ftoks_cons, List.getElem?_append_left (by rw [Node.toks_length]; simpa [Node.size] using h1)] at h
+      simp only [Node.toks_text, List.getElem?_map] at h
+      cases hc : s[pos]? with
+      | none => simp [hc] at h
+      | some c => simp [hc] at h; exact hx2 c m h.symm
+    | leaf t a m => simp [Node.size] at h1; omega
+    | elem t a m k => exact hne t a m k rfl
+
+/-- the slice a node-markup step replaces the addressed token by -/
+theorem nodeSlice_facts (S : Schema) (n u : Node) (attrs : Attrs) (marks : Marks)
+    (hu : S.recreate n attrs marks = .ok u) :
+    (Slice.mk [u] 0 (if n.isLeaf then 0 else 1)).size = 1 ∧ fnorm [u] = true := by
+  unfold Schema.recreate at hu
+  cases n with
+  | text s m => simp at hu
+  | leaf t a m =>
+    simp only at hu
+    cases hc : computeAttrs (S.nodeType t).attrs attrs with
+    | error e => rw [hc] at hu; simp [Except.map] at hu
+    | ok a' =>
+      rw [hc] at hu; simp [Except.map] at hu; subst hu
+      simp [Slice.size, Node.isLeaf, fsize, Node.size, fnorm, fnormKids, Node.norm, chainOk]
+  | elem t a m k =>
+    simp only at hu
+    cases hc : computeAttrs (S.nodeType t).attrs attrs with
+    | error e => rw [hc] at hu; simp [Except.map] at hu
+    | ok a' =>
+      rw [hc] at hu; simp [Except.map] at hu; subst hu
+      simp [Slice.size, Node.isLeaf, fsize, Node.size, fnorm, fnormKids, Node.norm, chainOk]
+
+/-- `type.create` reads the node's type only -/
+theorem recreate_congr_head (S : Schema) (n n' : Node) (attrs : Attrs) (marks : Marks)
+    (h : n'.headTok = n.headTok) (hnt : n.isText = false) (hnt' : n'.isText = false) :
+    S.recreate n' attrs marks = S.recreate n attrs marks ∧ n'.attrs = n.attrs ∧ n'.marks = n.marks ∧
+      n'.isLeaf = n.isLeaf := by
+  cases n <;> cases n' <;> simp [Node.headTok, Node.isText] at h hnt hnt' <;>
+    simp [Schema.recreate, Node.attrs, Node.marks, Node.isLeaf, h]
+
+/-- a node-markup step is the replace of the addressed token by the re-created node -/
+theorem nodeStep_apply_of (S : Schema) (doc n u : Node) (pos : Nat) (st : Step) (hst : NodeStepAt pos st)
+    (hn : doc.nodeAt pos = .ok (some n))
+    (hu : S.recreate n (stepAttrs st n.attrs) (stepMarks S st n.marks) = .ok u) :
+    S.apply st doc = S.fromReplace doc pos (pos + 1) ⟨[u], 0, if n.isLeaf then 0 else 1⟩ := by
+  rcases hst with ⟨m, rfl⟩ | ⟨m, rfl⟩ | ⟨nm, v, rfl⟩ <;>
+    simp only [stepAttrs, stepMarks] at hu <;> simp [Schema.apply, hn, hu]
+
 
 end PM
